@@ -25,9 +25,11 @@ theorem C07_sound_parse (urlParse : Str → Option UrlRec) (given : Str) (a : Re
     exact ⟨hpol (remoteFront_sub given ty pkgRaw sub hfront), by rw [hu]; exact huser⟩
 
 /-- **C07_sound_make.** An address accepted by the constructor `MakeRemoteSource` satisfies the
-transport policy and carries no user information. -/
+transport policy, carries no user information, and the query it was given parses strictly
+(so the policy was checked on the very pairs the address keeps in `RawQuery`). -/
 theorem C07_sound_make (ty : Str) (u : UrlRec) (sub : Str) (a : RemoteAddr)
-    (h : makeRemote ty u sub = some a) : Policy a ∧ a.url.hasUser = false := by
+    (h : makeRemote ty u sub = some a) :
+    Policy a ∧ a.url.hasUser = false ∧ u.queryErr = false := by
   unfold makeRemote at h
   split at h
   · cases h
@@ -35,13 +37,19 @@ theorem C07_sound_make (ty : Str) (u : UrlRec) (sub : Str) (a : RemoteAddr)
     split at h
     · cases h
     · rename_i huser
-      have hv := normalizeSubpath_some _ _ hn
-      obtain ⟨hpol, hu, _, _⟩ := makeRemoteCore_some ty u sub' a h
-      refine ⟨hpol (by rw [hv.1]; exact hv.2), ?_⟩
-      rw [hu]
-      have hm : Generated.makeChecksUser = true := by decide
-      simp only [hm, true_and, Bool.not_eq_true] at huser
-      exact huser
+      split at h
+      · cases h
+      · rename_i hq
+        have hv := normalizeSubpath_some _ _ hn
+        obtain ⟨hpol, hu, _, _⟩ := makeRemoteCore_some ty u sub' a h
+        refine ⟨hpol (by rw [hv.1]; exact hv.2), ?_, ?_⟩
+        · rw [hu]
+          have hm : Generated.makeChecksUser = true := by decide
+          simp only [hm, true_and, Bool.not_eq_true] at huser
+          exact huser
+        · have hm : Generated.makeChecksQuery = true := by decide
+          simp only [hm, true_and, Bool.not_eq_true] at hq
+          exact hq
 
 /-- what the parser saw had no user information either (the check is made on the parser's
 result, before anything else is looked at) -/
@@ -68,7 +76,8 @@ type, sub-path, scheme, host, path and query are stored as given.  (`_partial`: 
 itself — which strings `url.Parse` turns into which `UrlRec` — is outside the model; this is
 completeness of everything the package does with the parser's result.) -/
 theorem C07_complete_partial (ty : Str) (u : UrlRec) (sub : Str)
-    (g : Grammar { sourceType := ty, url := u, subPath := sub }) (huser : u.hasUser = false) :
+    (g : Grammar { sourceType := ty, url := u, subPath := sub }) (huser : u.hasUser = false)
+    (hqe : u.queryErr = false) :
     ∃ a, makeRemote ty u sub = some a ∧ a.sourceType = ty ∧ a.subPath = sub ∧
       a.url.scheme = u.scheme ∧ a.url.host = u.host ∧ a.url.path = u.path ∧
       a.url.query = u.query := by
@@ -76,7 +85,7 @@ theorem C07_complete_partial (ty : Str) (u : UrlRec) (sub : Str)
   refine ⟨{ sourceType := ty, url := normaliseRaw u', subPath := sub }, ?_, rfl, rfl, ?_⟩
   · unfold makeRemote
     rw [normalizeSubpath_of_validSub sub g.sub_ok]
-    simp only [huser, Bool.false_eq_true, and_false, if_false]
+    simp only [huser, hqe, Bool.false_eq_true, and_false, if_false]
     exact hcore
   · obtain ⟨h1, _, h3, _, _, _, h7, h8⟩ := normaliseRaw_fields u'
     simp only [h1, h3, h7, h8]
